@@ -16,7 +16,8 @@ vars == <<l, mon, run, bad>>
 Init == l = 1 /\ run = 0 /\ bad = {} /\ mon = P!QInit(0, FALSE)
 
 E == Rec[l]
-Note(b, vs) == IF Cardinality(b) > 400 THEN b ELSE b \cup { <<v[1], v[2], run, l>> : v \in vs }
+\* (bounded PER PROPERTY, so that a flood of flags of one property cannot hide another property's)
+Note(b, vs) == b \cup { <<v[1], v[2], run, l>> : v \in { w \in vs : Cardinality({x \in b : x[1] = w[1]}) < 120 } }
 Step(m2) == /\ mon' = m2 /\ bad' = Note(bad, m2.viol \ mon.viol) /\ l' = l + 1 /\ UNCHANGED run
 
 Reset == /\ E.ev = "reset" /\ mon' = P!QInit(E.cap, E.eh) /\ run' = l /\ l' = l + 1 /\ UNCHANGED bad
@@ -34,6 +35,7 @@ DH    == E.ev = "drophang"  /\ Step(P!QDropHang(mon, E.h))
 WD    == E.ev = "wdropped"  /\ Step(P!QWDropped(mon))
 SB    == E.ev = "sbegin"    /\ Step(P!QSampleBegin(mon))
 Sm    == E.ev = "sample"    /\ Step(P!QSample(mon, E.s, E.d, E.q, E.p))
+SP    == E.ev = "spanic"    /\ Step(P!QSamplePanic(mon))
 Bk    == E.ev = "bulk"      /\ Step(P!QBulk(mon, E.okn, E.deln))
 Qu    == E.ev = "quiesce"   /\ Step(P!QQuiesce(mon, E.s, E.d, E.q, E.p))
 End   == E.ev = "end"       /\ Step(P!QEnd(mon, E.released, E.exited))
@@ -41,7 +43,7 @@ End   == E.ev = "end"       /\ Step(P!QEnd(mon, E.released, E.exited))
 Skip  == E.ev \in {"hook", "note", "abandon", "step"} /\ Step(mon)
 
 Next == l <= Len(Rec) /\ (Reset \/ ECall \/ ERet \/ EPan \/ EHang \/ WEnt \/ WLv \/ EH \/ Cl \/ DB \/ DE \/ DH
-                          \/ WD \/ SB \/ Sm \/ Bk \/ Qu \/ End \/ Skip)
+                          \/ WD \/ SB \/ Sm \/ SP \/ Bk \/ Qu \/ End \/ Skip)
 Spec == Init /\ [][Next]_vars
 
 Verdict == l = Len(Rec) + 1 =>
